@@ -16,6 +16,51 @@ NOT_APPLICABLE = {
            "histories is a data-structure invariant proof; no pairing/ownership rule is a necessary "
            "condition of it beyond the usage discipline claimed under C03.SNAP (DESIGN.md section 6)",
 }
+# clauses added while building (DESIGN.md sections 10 and 12); appended to the module's own statement of what is decided
+ALSO = {
+    "C01": "The contracts of the other stages the composition relies on are decided by the rules of C03 (combinators), "
+           "C05 (optimizer) and C07 (reader), which are re-run under this property (rules C01.C03-*, C01.C05-*, C01.C07-*).",
+    "C02": "ENTRY also decides that the start-rule dispatch templates call the function of the rule they match and that "
+           "the VM starts from the rule it is given; SKIP accepts an atomicity guard hoisted into an early return.",
+    "C03": "Also decided: who may write the token queue (besides rule/sequence every write is guarded by lookahead == "
+           "None), multi-step matchers work on a scratch position, the memchr-free search scans exhaustively.",
+    "C04": "Also decided: cached pair count protocol, agreement of the two line counters on what ends a line, one leaf "
+           "predicate for sibling renderers, len() formulas vs step width, the serialized span of a sibling list is its "
+           "window's span (pretty-print), and - re-run from C03 - the production of the token stream (RULE, REWIND, QUEUEW, SNAP).",
+    "C05": "Also decided: rule-type guards enable rewrites only where no implicit whitespace is skipped, an accumulator "
+           "threaded by value is handed on on every result path, a rewrite never ignores an operand of the shape it matches.",
+    "C06": "Also decided: top-level nullability questions start from an empty trace, only keyword tests may answer before "
+           "the user's rule is looked up, and - re-run from C02 - both back-ends run WHITESPACE/COMMENT bodies atomically "
+           "(the validator's isolation argument depends on it).",
+    "C07": "Also decided: every stored literal passes the escape decoder; the meta-grammar's lexical rules (number, integer, "
+           "string, character, identifier, tag) are deterministic and DFA-equivalent over all scalar values to the "
+           "documented token syntax, on grammar.pest and on the PEG decompiled from the checked-in grammar.rs.",
+    "C08": "Also decided: the error constructor reports the position it is given (location and line_col are projections "
+           "of the same Position, never rewritten afterwards); the vector an attempt is pushed to is decided path by path.",
+    "C09": "Also decided: rendering (Display for Error and what it reaches in pest::error) never slices a string by a "
+           "computed range and has no panic site; every token the meta-grammar can produce has a reader arm in every "
+           "feature configuration (C07.ARMS re-run), so the reader's unreachable!() arm is unreachable; memo tables of "
+           "optimizer recursions never evict.",
+    "C12": "Also decided: the setter stores into the process-wide limit on every path with the sentinel the tracker reads "
+           "as unlimited; the limit keeps its integer width from setter to comparison; the global is read only when a "
+           "tracker is built.",
+    "C13": "Also decided: operator lookup precondition (binary search only over sorted tables), each operator of a `|` "
+           "chain is registered under its own rule, and a rule declared twice resolves alike in PrattParser and "
+           "ConstPrattParser (last declaration wins in both).",
+    "C14": "Also decided: pest_meta::parser::parse is PestParser::parse on its own parameters (ENTRY); every rule function of "
+           "grammar.rs decompiles to the expression an independent reader gives that rule in grammar.pest (INDEPENDENT, "
+           "breaks the circularity of regeneration); VM agreement is C02 re-run on the default configuration.",
+    "C15": "Also decided: every value stored in max_position is an offset read from a Position (inter-procedural "
+           "provenance, never arithmetic); code that runs only with error detail on contains no explicit panic site.",
+    "C16": "Also decided: the front-end never consults the raw lookup tables (which hold unadvertised names); generator "
+           "template and emitted function carry the same property name; no advertised name is shadowed by a hard-wired arm.",
+    "C17": "Also decided: the done flag protocol, every entry path offers the rule to the listener, the shared state is "
+           "reached only through the lock, and the bundled CLI keeps the previous receiver alive until run() has joined "
+           "the previous parser thread.",
+    "C18": "The same analyses are re-run on the PEG decompiled from the derive-expanded JsonParser, in the default build and "
+           "in a build with pest_derive/grammar-extras unified in; the tree clause's observation layer (Pairs views) is C04 "
+           "re-run; lifting a call limit (C12.SETTER) is re-run.",
+}
 PENDING = "check not built yet (DESIGN.md section 4 describes the planned rule); not claimed until it exists"
 
 
@@ -40,7 +85,7 @@ def main():
             "evidence_file": "/verif/evidence/%s.json" % pid,
             "replay_cmd_template": "./check %s --replay {path}" % pid,
             "engine": m.get("engine", "pestfacts+rules"),
-            "level_claimed": {"category": getattr(mod, "LEVEL", "other"), "text": m["text"],
+            "level_claimed": {"category": getattr(mod, "LEVEL", "other"), "text": m["text"] + ((" " + ALSO[pid]) if pid in ALSO else ""),
                               "design_ref": m.get("design_ref", "DESIGN.md section 4, %s" % pid)},
             "level_note": m["note"],
             "technique": m["technique"],
